@@ -439,6 +439,8 @@ class Probe:
         self.frame_events: Dict[str, int] = {}
         self.bad_frames: List[str] = []
         self.work_log: List[Tuple[str, int]] = []   # (tag, id of the owning component: software / file system / interface)
+        self.bad_upper: List[str] = []  # a layer above the interface (node / session manager / software manager / software) entered on a non-ON node
+        self.upper_events: Dict[str, int] = {}
         self._undo = []
 
     def install(self):
@@ -517,6 +519,48 @@ class Probe:
                         active.discard(key)
                 setattr(cls, meth, w)
                 self._undo.append(lambda cls=cls, orig=orig: setattr(cls, meth, orig))
+
+        def upper(root, meth, layer, node_of):
+            """oracle for "it does not process traffic": the layers above the interface of a node that is not ON are never entered"""
+            todo, seen = [root], set()
+            while todo:
+                cls = todo.pop()
+                if cls in seen:
+                    continue
+                seen.add(cls)
+                todo += cls.__subclasses__()
+                if meth not in cls.__dict__:
+                    continue
+                orig = cls.__dict__[meth]
+
+                def w(self_, *a, _orig=orig, _cls=cls, **k):
+                    key = (id(self_), "upper:" + meth)
+                    if key not in active:
+                        try:
+                            node = node_of(self_)
+                        except Exception:
+                            node = None
+                        if node is not None:
+                            on = node.operating_state == NodeOperatingState.ON
+                            ev = f"{layer}:{'on' if on else 'not-on'}"
+                            probe.upper_events[ev] = probe.upper_events.get(ev, 0) + 1
+                            if not on:
+                                probe.bad_upper.append(f"{layer}|{type(self_).__name__}.{meth} on {node.config.hostname} "
+                                                       f"({node.operating_state.name})")
+                        active.add(key)
+                        try:
+                            return _orig(self_, *a, **k)
+                        finally:
+                            active.discard(key)
+                    return _orig(self_, *a, **k)
+                setattr(cls, meth, w)
+                self._undo.append(lambda cls=cls, orig=orig: setattr(cls, meth, orig))
+        from primaite.simulator.system.core.session_manager import SessionManager
+        from primaite.simulator.system.core.software_manager import SoftwareManager
+        upper(Node, "receive_frame", "node", lambda o: o)
+        upper(SessionManager, "receive_frame", "sess", lambda o: o.node)
+        upper(SoftwareManager, "receive_payload_from_session_manager", "swmgr", lambda o: o.node)
+        upper(Software, "receive", "software", lambda o: o.software_manager.node if o.software_manager else None)
 
         def sw(prefix):
             return lambda o: prefix + ("s" if isinstance(o, Service) else "a" if isinstance(o, Application) else "")
@@ -759,6 +803,7 @@ def run_case(case: dict) -> Tuple[List[str], List[str], List[str], Dict[str, int
 
         for k, op in enumerate(case["ops"]):
           nb = len(probe.bad_frames)
+          nu = len(probe.bad_upper)
           kind = op["op"]
           try:
               if kind == "tick":
@@ -955,8 +1000,13 @@ def run_case(case: dict) -> Tuple[List[str], List[str], List[str], Dict[str, int
             break
           for b in probe.bad_frames[nb:]:
               oracle.append(f"frame-passed-interface-of-node-not-on|{b.split(' on ')[0]}|{b} during op {k} {op}")
+          for b in probe.bad_upper[nu:]:
+              oracle.append(f"frame-processed-above-interface-while-not-on|{b.split(' on ')[0]}|{b} during op {k} {op}")
           invariants(f"op {k} {op}")
-        return lines, impl, oracle, dict(probe.frame_events)
+        fe = dict(probe.frame_events)
+        for ev, v in probe.upper_events.items():
+            fe["above-interface:" + ev] = v
+        return lines, impl, oracle, fe
     finally:
         probe.remove()
 
